@@ -318,6 +318,9 @@ bool OPNMIDIplay::realTime_NoteOn(uint8_t channel, uint8_t note, uint8_t velocit
     if(note >= 127)
         note = 127;
 
+    if(static_cast<size_t>(channel) >= m_midiChannels.size())
+        channel = channel % 16;
+
     if((synth.m_musicMode == Synth::MODE_RSXX) && (velocity != 0))
     {
         // Check if this is just a note after-touch
@@ -334,7 +337,7 @@ bool OPNMIDIplay::realTime_NoteOn(uint8_t channel, uint8_t note, uint8_t velocit
         }
     }
 
-    if(static_cast<size_t>(channel) > m_midiChannels.size())
+    if(static_cast<size_t>(channel) >= m_midiChannels.size())
         channel = channel % 16;
     noteOff(channel, note, velocity != 0);
     // On Note on, Keyoff the note first, just in case keyoff
@@ -635,14 +638,14 @@ bool OPNMIDIplay::realTime_NoteOn(uint8_t channel, uint8_t note, uint8_t velocit
 
 void OPNMIDIplay::realTime_NoteOff(uint8_t channel, uint8_t note)
 {
-    if(static_cast<size_t>(channel) > m_midiChannels.size())
+    if(static_cast<size_t>(channel) >= m_midiChannels.size())
         channel = channel % 16;
     noteOff(channel, note);
 }
 
 void OPNMIDIplay::realTime_NoteAfterTouch(uint8_t channel, uint8_t note, uint8_t atVal)
 {
-    if(static_cast<size_t>(channel) > m_midiChannels.size())
+    if(static_cast<size_t>(channel) >= m_midiChannels.size())
         channel = channel % 16;
     MIDIchannel &chan = m_midiChannels[channel];
     MIDIchannel::notes_iterator i = m_midiChannels[channel].find_activenote(note);
@@ -664,14 +667,14 @@ void OPNMIDIplay::realTime_NoteAfterTouch(uint8_t channel, uint8_t note, uint8_t
 
 void OPNMIDIplay::realTime_ChannelAfterTouch(uint8_t channel, uint8_t atVal)
 {
-    if(static_cast<size_t>(channel) > m_midiChannels.size())
+    if(static_cast<size_t>(channel) >= m_midiChannels.size())
         channel = channel % 16;
     m_midiChannels[channel].aftertouch = atVal;
 }
 
 void OPNMIDIplay::realTime_Controller(uint8_t channel, uint8_t type, uint8_t value)
 {
-    if(static_cast<size_t>(channel) > m_midiChannels.size())
+    if(static_cast<size_t>(channel) >= m_midiChannels.size())
         channel = channel % 16;
     switch(type)
     {
@@ -817,7 +820,7 @@ void OPNMIDIplay::realTime_Controller(uint8_t channel, uint8_t type, uint8_t val
 
 void OPNMIDIplay::realTime_PatchChange(uint8_t channel, uint8_t patch)
 {
-    if(static_cast<size_t>(channel) > m_midiChannels.size())
+    if(static_cast<size_t>(channel) >= m_midiChannels.size())
         channel = channel % 16;
     if(patch > 127) // a bank has 128 entries
         patch = 127;
@@ -826,7 +829,7 @@ void OPNMIDIplay::realTime_PatchChange(uint8_t channel, uint8_t patch)
 
 void OPNMIDIplay::realTime_PitchBend(uint8_t channel, uint16_t pitch)
 {
-    if(static_cast<size_t>(channel) > m_midiChannels.size())
+    if(static_cast<size_t>(channel) >= m_midiChannels.size())
         channel = channel % 16;
     m_midiChannels[channel].bend = int(pitch) - 8192;
     noteUpdateAll(channel, Upd_Pitch);
@@ -834,7 +837,7 @@ void OPNMIDIplay::realTime_PitchBend(uint8_t channel, uint16_t pitch)
 
 void OPNMIDIplay::realTime_PitchBend(uint8_t channel, uint8_t msb, uint8_t lsb)
 {
-    if(static_cast<size_t>(channel) > m_midiChannels.size())
+    if(static_cast<size_t>(channel) >= m_midiChannels.size())
         channel = channel % 16;
     m_midiChannels[channel].bend = int(lsb) + int(msb) * 128 - 8192;
     noteUpdateAll(channel, Upd_Pitch);
@@ -842,7 +845,7 @@ void OPNMIDIplay::realTime_PitchBend(uint8_t channel, uint8_t msb, uint8_t lsb)
 
 void OPNMIDIplay::realTime_BankChangeLSB(uint8_t channel, uint8_t lsb)
 {
-    if(static_cast<size_t>(channel) > m_midiChannels.size())
+    if(static_cast<size_t>(channel) >= m_midiChannels.size())
         channel = channel % 16;
     m_midiChannels[channel].bank_lsb = lsb;
     if((m_synthMode & Mode_GS) == 0)// Don't use XG drums on GS synth mode
@@ -851,7 +854,7 @@ void OPNMIDIplay::realTime_BankChangeLSB(uint8_t channel, uint8_t lsb)
 
 void OPNMIDIplay::realTime_BankChangeMSB(uint8_t channel, uint8_t msb)
 {
-    if(static_cast<size_t>(channel) > m_midiChannels.size())
+    if(static_cast<size_t>(channel) >= m_midiChannels.size())
         channel = channel % 16;
     m_midiChannels[channel].bank_msb = msb;
     if((m_synthMode & Mode_GS) == 0)// Don't use XG drums on GS synth mode
@@ -860,7 +863,7 @@ void OPNMIDIplay::realTime_BankChangeMSB(uint8_t channel, uint8_t msb)
 
 void OPNMIDIplay::realTime_BankChange(uint8_t channel, uint16_t bank)
 {
-    if(static_cast<size_t>(channel) > m_midiChannels.size())
+    if(static_cast<size_t>(channel) >= m_midiChannels.size())
         channel = channel % 16;
     m_midiChannels[channel].bank_lsb = uint8_t(bank & 0xFF);
     m_midiChannels[channel].bank_msb = uint8_t((bank >> 8) & 0xFF);
